@@ -36,6 +36,9 @@ M2DefVolume  == 64                   \* channel_volume[] = 0x40
 M2KeyOffVel  == 64                   \* bit2 = 0x40
 M2DefaultFrequency == 140
 M2HeaderSize == 14
+\* repair switch (FALSE = the tree as it is): TRUE models the suggested repair of the delay loop
+\*   if (delta_time > 0x001FFFFF) goto _end;  before the multiplication,  if (delta_time < 0 || delta_time > 0x0FFFFFFF) goto _end;  after it
+M2RepairDelayLimit == FALSE
 M2Midimap == <<0, 0, 1, 7, 10, 11, 91, 93, 64, 67, 120, 123, 126, 127, 121>>     \* mus_midimap[]
 M2MusId == <<77, 85, 83, 26>>
 
@@ -55,9 +58,11 @@ M2Scale(x, f) == IF f = 140 THEN x ELSE (x * 140) \div f
 RECURSIVE M2Delay(_, _, _, _, _)
 M2Delay(b, end, f, cur, delta) ==
   IF end - cur < 1 THEN <<0, -1>>
+  ELSE IF M2RepairDelayLimit /\ delta > 2097151 THEN <<0, -1>>
   ELSE IF delta >= 16777216 THEN <<0, -2>>                       \* delta * 128 overflows int32 in the C code: outside the model
   ELSE LET x == M2At(b, cur)  d1 == M2Scale(delta * 128 + (x % 128), f) IN
-       IF x >= 128 THEN M2Delay(b, end, f, cur + 1, d1) ELSE <<d1, cur + 1>>
+       IF M2RepairDelayLimit /\ d1 > 268435455 THEN <<0, -1>>
+       ELSE IF x >= 128 THEN M2Delay(b, end, f, cur + 1, d1) ELSE <<d1, cur + 1>>
 
 \* state of the main loop: cur (C offset), delta (delta_time), map (channelMap, index MUS channel + 1), cc (currentChannel),
 \* vol (channel_volume, index MIDI channel + 1), ev (events written), n (bytes written to the track), st
